@@ -32,6 +32,8 @@
      ScaleParamsNothing   ... with nothing flagged or no pair of line assemblies: nothing changes
                           (both only in a third core: the call is meant for a core that carries its edge assemblies)
      Solve(f)             stands for the flux solve between add and scale: assigns every valued volume-integrated parameter
+     EditCopy             a client edits a temporary copy while the core is full (Assembly.insert(0, block)); the core's
+                          tables do not list the new block; Restore must still purge everything it does list
 
    Core.add(a, loc)  = child list, childrenByLocator[loc], assembliesByName, blocksByName, fresh name from the
                        reactor's counter (the copy carries a negative placeholder number), Assembly.moveTo(loc),
@@ -63,6 +65,9 @@
                 Core.removeAssembly re-raise every flag of a parameter that was ever assigned -- by every step that adds or
                 removes an assembly; cleared at the END of addEdgeAssemblies.  scaleParamsRelatedToSymmetry scales exactly the
                 flagged parameters.  (convert() no longer consults it since D1 was repaired.)
+     at[c].ed   this (temporary) copy carries a block the core was never told about (EditCopy)
+     zcells[z]  Core.zones: the cells listed by zone z (two zones in the generated cores, by parity of the original's index).
+                convert() lists every new cell in the zone that lists its source's cell; nothing ever un-lists a cell
      at[c].fx   the scalar fluxes (flux, fluxAdj, fluxGamma) of this object are as built / as solved; FALSE once
                 scaleParamsRelatedToSymmetry has recomputed them from the combined multigroup fluxes
      touched, flow, trip, preEdge   history variables for the invariants (a parameter write has happened; progress through
@@ -93,7 +98,11 @@
                                                                                       = identity on every parameter),
                                                                                       AddEdgesClearsFlags, HalvesCombine
                                                                                       (add ; solve ; scale ; remove)
-     (auxiliary) TypeOK, SymmetryConsistent, EdgeCopiesAreHalves
+     (pass-through, not named in the statement) copies are found in their source's zone, zone-wise counts x3 ... ZonesFollowSources
+     (auxiliary) TypeOK, SymmetryConsistent, EdgeCopiesAreHalves, EditsAreTemporary
+     Observed on the real code only (constants of Obs): no object shared between assemblies (shared = 0); array objects the
+     caller assigned as parameter values -- the harness assigns ONE array to every block of every assembly -- are never modified
+     in place (inputsIntact)
 
    INTERPRETATION CHOICES
      I1  "three times the third-core values": a third-core model that carries edge assemblies is converted by first
@@ -133,6 +142,10 @@
    <<-1, 2>> is filled or emptied (its masses follow the new factor).  Both round trips purge such assemblies, so no clause
    is touched; their volume is simply not projected.
 
+   ZONES, seen on the way (not clauses): restorePreviousGeometry leaves the image cells listed in their zones, edge copies join
+   no zone, and an edge assembly that was in the model from the start leaves its cell listed when convert discards it, so the
+   image that lands there is found in THAT zone first (and counted in both).  The reference transcribes all three.
+
    CONFIGURATIONS (SymmetryConversion_mc.tla)
      _mc.cfg           all 255 loading patterns of a 3-ring third core (7 cells + the edge cell), call sequences <= 4
      _mc_thorough.cfg  510 patterns over lines-to-ring-5 + centre + interior cells (alone / inside a 4-ring core), <= 5 calls
@@ -148,9 +161,9 @@ CONSTANTS Dom,        \* candidate cells of the third-core model (first third, 1
           Go,         \* enabling condition of every action (depth bound in the model-checking configs, TRUE otherwise)
           MaxLevel
 
-VARIABLES sym, at, byLoc, byName, byBlk, nextNum, added, conv, ecAdded, gflag, touched, flow, trip, preEdge,
+VARIABLES sym, at, byLoc, byName, byBlk, nextNum, added, conv, ecAdded, gflag, zcells, touched, flow, trip, preEdge,
           pat, base, sf0, preConv, act
-vars == <<sym, at, byLoc, byName, byBlk, nextNum, added, conv, ecAdded, gflag, touched, flow, trip, preEdge, pat, base, sf0, preConv>>
+vars == <<sym, at, byLoc, byName, byBlk, nextNum, added, conv, ecAdded, gflag, zcells, touched, flow, trip, preEdge, pat, base, sf0, preConv>>
 hist == <<touched, flow, trip, preEdge>>      \* history variables: read by invariants only
 
 (* ------------------------------------------------ geometry ------------------------------------------------ *)
@@ -181,7 +194,7 @@ RingPosLess(a, b)  == LET p == AlgRingPos(a)  q == AlgRingPos(b)            \* g
 
 (* -------------------------------------------- the core as a value -------------------------------------------- *)
 NoNum == -1
-NoAsm == [num |-> NoNum, o |-> 0, k |-> 0, ps |-> RZero, fx |-> TRUE]
+NoAsm == [num |-> NoNum, o |-> 0, k |-> 0, ps |-> RZero, fx |-> TRUE, ed |-> FALSE]
 \* parameter scales: a rational, or Mixed when scaleParamsRelatedToSymmetry has added the values of an assembly of ANOTHER
 \* origin (the result is then not a multiple of the built values; it is not projected)
 Mixed        == <<0, 0>>
@@ -209,7 +222,7 @@ PurgeSet(K, S)  == FoldLeft(PurgeOne, K, SortedCells(S))
 
 \* deepcopy(source) ; makeUnique ; Core.add(copy, t)  -- the target must be free (Core.add refuses a filled location)
 PlaceCopy(K, src, t, kind) ==
-    LET r == [num |-> K.nn, o |-> K.at[src].o, k |-> kind, ps |-> K.at[src].ps, fx |-> K.at[src].fx] IN
+    LET r == [num |-> K.nn, o |-> K.at[src].o, k |-> kind, ps |-> K.at[src].ps, fx |-> K.at[src].fx, ed |-> FALSE] IN
     IF K.at[t].num # NoNum \/ K.loc[t] # NoNum
     THEN Assert(FALSE, <<"Core.add to a filled location", t>>)
     ELSE [K EXCEPT !.at[t] = r, !.loc[t] = K.nn, !.nm = @ \cup {K.nn}, !.bk = @ \cup {K.nn}, !.nn = @ + 1]
@@ -242,6 +255,12 @@ BaseK(K, s, addedNums) ==
     ELSE LET K1 == PurgeSet(K, {cc \in Occ(K) : K.at[cc].num \in addedNums})
          IN  IF Centre \in Occ(K1) THEN [K1 EXCEPT !.at[Centre].ps = PDivI(@, 3)] ELSE K1
 
+\* Zones (Core.zones: named sets of locations).  The generated cores define two, by parity of the original's index.
+ZoneOfOrigin(oo) == IF oo % 2 = 1 THEN 1 ELSE 2
+ZoneAt(cc)       == IF cc \in zcells[1] THEN 1 ELSE IF cc \in zcells[2] THEN 2 ELSE 0       \* Zones.findZoneItIsIn
+\* the copy an "edit while full" touches: the one in the smallest cell
+EditTarget(K, addedNums) == LET cs == SortedCells({cc \in Occ(K) : K.at[cc].num \in addedNums}) IN cs[1]
+
 (* ------------------------------------------------- machine ------------------------------------------------- *)
 Install(K) == at' = K.at /\ byLoc' = K.loc /\ byName' = K.nm /\ byBlk' = K.bk /\ nextNum' = K.nn
 Label(n, kept, br) == [n |-> n, kept |-> kept, br |-> br]
@@ -249,12 +268,13 @@ Label(n, kept, br) == [n |-> n, kept |-> kept, br |-> br]
 InitWith(P) ==
     LET cs == SortedCells(P)
         idx(cc) == CHOOSE x \in 1..Len(cs) : cs[x] = cc
-        K0 == [at  |-> [cc \in All |-> IF cc \in P THEN [num |-> idx(cc) - 1, o |-> idx(cc), k |-> 0, ps |-> ROne, fx |-> TRUE] ELSE NoAsm],
+        K0 == [at  |-> [cc \in All |-> IF cc \in P THEN [num |-> idx(cc) - 1, o |-> idx(cc), k |-> 0, ps |-> ROne, fx |-> TRUE, ed |-> FALSE] ELSE NoAsm],
                loc |-> [cc \in All |-> IF cc \in P THEN idx(cc) - 1 ELSE NoNum],
                nm  |-> 0..(Len(cs) - 1), bk |-> 0..(Len(cs) - 1), nn |-> Len(cs)]
     IN  /\ pat = cs /\ sym = "third"
         /\ at = K0.at /\ byLoc = K0.loc /\ byName = K0.nm /\ byBlk = K0.bk /\ nextNum = K0.nn
         /\ added = {} /\ conv = FALSE /\ ecAdded = FALSE /\ gflag = TRUE
+        /\ zcells = [z \in 1..2 |-> {cs[x] : x \in {y \in 1..Len(cs) : ZoneOfOrigin(y) = z}}]
         /\ touched = FALSE /\ flow = "none" /\ trip = "" /\ preEdge = Proj(K0)
         /\ base = Proj(BaseK(K0, "third", {}))
         /\ sf0 = [x \in 1..Len(cs) |-> SFk(K0, "third", cs[x])]
@@ -275,6 +295,9 @@ Convert ==
     /\ preConv' = Proj(Cur)
     /\ sym' = "full" /\ conv' = TRUE
     /\ flow' = "none" /\ trip' = ""
+    \* thisZone.addLoc(newAssem.getLocation()): every new cell joins the zone that lists its source's cell
+    /\ zcells' = [z \in DOMAIN zcells |->
+                    zcells[z] \cup UNION {{Rot3(1, cc), Rot3(2, cc)} : cc \in (Occ(Cur) \cap zcells[z]) \ (EdgeOcc(Cur) \cup {Centre})}]
     /\ UNCHANGED <<ecAdded, touched, preEdge, pat, base, sf0>>
     /\ act' = Label("convert", FALSE, "Convert")
 
@@ -291,7 +314,7 @@ Restore ==
     /\ sym' = "third" /\ conv' = FALSE /\ added' = {}
     /\ gflag' = (gflag \/ added # {})
     /\ flow' = "none" /\ trip' = ""
-    /\ UNCHANGED <<ecAdded, touched, preEdge, pat, base, sf0, preConv>>
+    /\ UNCHANGED <<zcells, ecAdded, touched, preEdge, pat, base, sf0, preConv>>
     /\ act' = Label("restore", FALSE, "Restore")
 
 RestoreNothing ==
@@ -309,7 +332,7 @@ AddEdges(kept) ==
            /\ ecAdded' = IF kept THEN K1.nn # nextNum ELSE ecAdded
     /\ gflag' = FALSE
     /\ flow' = "none" /\ trip' = "A" /\ preEdge' = Proj(Cur)
-    /\ UNCHANGED <<sym, added, conv, touched, pat, base, sf0, preConv>>
+    /\ UNCHANGED <<zcells, sym, added, conv, touched, pat, base, sf0, preConv>>
     /\ act' = Label("addEdges", kept, "AddEdges")
 
 AddEdgesAlreadyThere(kept) ==
@@ -332,7 +355,7 @@ RemoveEdges(kept) ==
     /\ gflag' = (gflag \/ EdgeOcc(Cur) # {})
     /\ flow' = (IF flow = "scaled" THEN "combined" ELSE "none")
     /\ trip' = (IF trip = "AS" THEN "ASR" ELSE "")
-    /\ UNCHANGED <<sym, added, conv, touched, preEdge, pat, base, sf0, preConv>>
+    /\ UNCHANGED <<zcells, sym, added, conv, touched, preEdge, pat, base, sf0, preConv>>
     /\ act' = Label("removeEdges", kept, "RemoveEdges")
 
 RemoveEdgesFullCore(kept) ==
@@ -352,7 +375,7 @@ ScaleParams ==
     /\ touched' = TRUE
     /\ flow' = (IF flow = "solved" THEN "scaled" ELSE "none")
     /\ trip' = (IF trip = "A" THEN "AS" ELSE "")
-    /\ UNCHANGED <<sym, added, conv, ecAdded, gflag, preEdge, pat, base, sf0, preConv>>
+    /\ UNCHANGED <<zcells, sym, added, conv, ecAdded, gflag, preEdge, pat, base, sf0, preConv>>
     /\ act' = Label("scaleParams", FALSE, "ScaleParams")
 
 \* nothing has been assigned since the last geometry transformation (the state addEdgeAssemblies leaves behind), or there is
@@ -361,7 +384,7 @@ ScaleParamsNothing ==
     /\ Go
     /\ sym = "third" /\ Occ(Cur) # {} /\ ~(gflag /\ NPairs(Cur) > 0)
     /\ trip' = (IF trip = "A" THEN "AS" ELSE "")
-    /\ UNCHANGED <<sym, at, byLoc, byName, byBlk, nextNum, added, conv, ecAdded, gflag, touched, flow, preEdge, pat, base, sf0, preConv>>
+    /\ UNCHANGED <<zcells, sym, at, byLoc, byName, byBlk, nextNum, added, conv, ecAdded, gflag, touched, flow, preEdge, pat, base, sf0, preConv>>
     /\ act' = Label("scaleParams", FALSE, "ScaleParamsNothing")
 
 \* what stands for the flux solve between addEdgeAssemblies and scaleParamsRelatedToSymmetry: every volume-integrated
@@ -380,8 +403,18 @@ Solve(f) ==
     /\ gflag' = TRUE /\ touched' = TRUE
     /\ flow' = (IF sym = "third" /\ f = PhysSeq /\ FullyPaired(Cur) THEN "solved" ELSE "none")
     /\ trip' = ""
-    /\ UNCHANGED <<sym, byLoc, byName, byBlk, nextNum, added, conv, ecAdded, preEdge, pat, base, sf0, preConv>>
+    /\ UNCHANGED <<zcells, sym, byLoc, byName, byBlk, nextNum, added, conv, ecAdded, preEdge, pat, base, sf0, preConv>>
     /\ act' = [n |-> "solve", kept |-> FALSE, br |-> "Solve", ps |-> f]
+
+\* a client edits one of the temporary copies while the core is full: Assembly.insert(0, block) pushes a new bottom block
+\* into the copy in the smallest cell.  The core is not told (blocksByName does not list the block); the purge at Restore
+\* must still forget every block of that copy that it does list.
+EditCopy ==
+    /\ Go
+    /\ sym = "full" /\ added # {} /\ ~at[EditTarget(Cur, added)].ed
+    /\ at' = [at EXCEPT ![EditTarget(Cur, added)].ed = TRUE]
+    /\ UNCHANGED <<sym, byLoc, byName, byBlk, nextNum, added, conv, ecAdded, gflag, zcells, touched, flow, trip, preEdge, pat, base, sf0, preConv>>
+    /\ act' = Label("editCopy", FALSE, "EditCopy")
 
 \* one disjunct per CALL (what a recorded event names); the specification decides the branch
 CallConvert        == Convert \/ ConvertAlreadyFull
@@ -389,7 +422,7 @@ CallRestore        == Restore \/ RestoreNothing
 CallAddEdges(kept) == AddEdges(kept) \/ AddEdgesAlreadyThere(kept) \/ AddEdgesFullCore(kept)
 CallRemoveEdges(kept) == RemoveEdges(kept) \/ RemoveEdgesFullCore(kept)
 CallScaleParams    == ScaleParams \/ ScaleParamsNothing
-Next == CallConvert \/ CallRestore \/ CallScaleParams \/ Solve(PhysSeq)
+Next == CallConvert \/ CallRestore \/ CallScaleParams \/ Solve(PhysSeq) \/ EditCopy
         \/ \E kept \in BOOLEAN : CallAddEdges(kept) \/ CallRemoveEdges(kept)
 
 (* ------------------------------------------------ quantities ------------------------------------------------ *)
@@ -406,12 +439,12 @@ HasCentre(K)   == Centre \in Occ(K)
 Count(K)       == Cardinality(Occ(K))
 
 (* ------------------------------------------------ invariants ------------------------------------------------ *)
-AsmRecs == [num : Int, o : Nat, k : 0..3, ps : Int \X Int, fx : BOOLEAN]
+AsmRecs == [num : Int, o : Nat, k : 0..3, ps : Int \X Int, fx : BOOLEAN, ed : BOOLEAN]
 TypeOK ==
     /\ sym \in {"third", "full"}
     /\ at \in [All -> AsmRecs] /\ byLoc \in [All -> Int]
     /\ byName \subseteq Nat /\ byBlk \subseteq Nat /\ nextNum \in Nat /\ added \subseteq Nat
-    /\ conv \in BOOLEAN /\ ecAdded \in BOOLEAN /\ gflag \in BOOLEAN /\ touched \in BOOLEAN
+    /\ conv \in BOOLEAN /\ ecAdded \in BOOLEAN /\ gflag \in BOOLEAN /\ touched \in BOOLEAN /\ zcells \in [1..2 -> SUBSET All]
     /\ flow \in {"none", "solved", "scaled", "combined"} /\ trip \in {"", "A", "AS", "ASR"}
     /\ \A cc \in Occ(Cur) : at[cc].o \in 1..NOrig /\ (IsMixed(at[cc].ps) \/ (at[cc].ps[1] > 0 /\ at[cc].ps[2] > 0))
     /\ ~touched => \A cc \in Occ(Cur) : at[cc].fx /\ ~IsMixed(at[cc].ps)
@@ -440,6 +473,19 @@ CopiesRotatedIntoPlace ==
           /\ at[cc].k = 3 => /\ Line(cc) = 3
                              /\ LET s == Rot3(2, cc) IN at[s].k = 0 /\ at[s].o = at[cc].o /\ Line(s) = 1
 
+\* zones are a pass-through: every copy made by Convert is found in the zone of its source, so zone-wise counts triple too
+\* (an edge copy joins no zone, and Restore leaves the image cells listed: that is what the code does, zones are not named
+\* in the statement, and neither is observable through an assembly that is in the core)
+\* (stated where no cell is listed by both zones: an edge assembly that was in the model from the start leaves its cell
+\*  listed when convert discards it, and the image that lands there is then found in that zone first)
+ZonesFollowSources == (sym = "full" /\ zcells[1] \cap zcells[2] = {}) =>
+    /\ \A cc \in Occ(Cur) : at[cc].k \in {1, 2} => ZoneAt(cc) = ZoneAt(Rot3(3 - at[cc].k, cc))
+    /\ \A z \in 1..2 : LET inB == {cc \in Occ(BaseAsK) : ZoneAt(cc) = z}
+                            n   == Cardinality({cc \in Occ(Cur) : ZoneAt(cc) = z})
+                        IN  n = IF Centre \in inB THEN 3 * (Cardinality(inB) - 1) + 1 ELSE 3 * Cardinality(inB)
+\* only temporary copies are ever edited, and only while the core is full
+EditsAreTemporary == \A cc \in Occ(Cur) : at[cc].ed => sym = "full" /\ at[cc].k \in {1, 2}
+
 \* names are unique, below the counter; an object sits in one cell only
 UniqueNames ==
     /\ \A c1, c2 \in Occ(Cur) : c1 # c2 => at[c1].num # at[c2].num
@@ -453,7 +499,7 @@ LookupsTruthful ==
     /\ byBlk = Live(Cur)
 
 \* x3: counts (centre once), volume and mass of every nuclide, every volume-integrated total
-TimesThree == sym = "full" =>
+TimesThree == (sym = "full" /\ \A cc \in Occ(Cur) : ~at[cc].ed) =>
     /\ VolCoef(Cur, "full") = Times3(VolCoef(BaseAsK, "third"))
     /\ ~touched => ParCoef(Cur) = Times3(ParCoef(BaseAsK))       \* (parameters nobody has re-assigned or combined since)
     /\ Count(Cur) = IF HasCentre(BaseAsK) THEN 3 * (Count(BaseAsK) - 1) + 1 ELSE 3 * Count(BaseAsK)
@@ -509,17 +555,20 @@ ObsT ==
                        orig |-> at[cc].k = 0,
                        rot  |-> RotOf(at[cc].k),                                 \* orientation / 120 degrees
                        sf   |-> f,
-                       vq   |-> RFrac(1, f),                                     \* reported mass of every nuclide / full value
+                       \* (an edited copy has one block more than its source: its quantities are not projected, <<0, 0>>)
+                       vq   |-> IF at[cc].ed THEN <<0, 0>> ELSE RFrac(1, f),             \* reported mass of every nuclide / full value
                        \* reported volume / full volume.  Assembly.getVolume is (cached area of its first block) x height; the
                        \* code refreshes that cache for the centre and the 0-degree line whenever their factor changes, but not
                        \* for an ORIGINAL assembly that already sat on the 120-degree line when the innermost edge cell is
                        \* filled or emptied.  Such assemblies are outside every clause of the statement (both round trips
                        \* purge them): their volume is not projected (<<0, 0>>), and where one is present the core's total
                        \* volume is not compared (volOk).
-                       vqv  |-> IF Line(cc) = 3 /\ at[cc].k = 0 THEN <<0, 0>> ELSE RFrac(1, f),
-                       ps   |-> at[cc].ps,                                       \* volume-integrated parameters / built value (<<0,0>> = mixed)
+                       vqv  |-> IF (Line(cc) = 3 /\ at[cc].k = 0) \/ at[cc].ed THEN <<0, 0>> ELSE RFrac(1, f),
+                       ps   |-> IF at[cc].ed THEN <<0, 0>> ELSE at[cc].ps,                                       \* volume-integrated parameters / built value (<<0,0>> = mixed)
                        fx   |-> at[cc].fx,                                       \* scalar flux / adjoint flux as built (not recomputed)
-                       other |-> ROne]],                                         \* every other parameter / built value
+                       other |-> IF at[cc].ed THEN <<0, 0>> ELSE ROne,           \* every other parameter / built value
+                       zone |-> ZoneAt(cc),                                      \* Zones.findZoneItIsIn: 1 = "A", 2 = "B", 0 = none
+                       ed   |-> at[cc].ed]],                                     \* carries a block the core was never told about
         byLoc  |-> SortedCells({cc \in All : byLoc[cc] # NoNum}),
         where  |-> [x \in 1..Len(al) |->                                         \* getAssemblyWithStringLocation over the hexagon
                       LET n == byLoc[al[x]] IN
@@ -528,10 +577,13 @@ ObsT ==
                       ELSE LET hit == {cc \in Occ(K) : at[cc].num = n} IN
                            IF hit = {} THEN <<0, 0>> ELSE LET cc == CHOOSE h \in hit : TRUE IN <<at[cc].o, at[cc].k>>],
         nameFinds |-> SortedCells({cc \in Occ(K) : at[cc].num \in byName}),      \* getAssemblyByName(name) is the assembly
-        blkFinds  |-> SortedCells({cc \in Occ(K) : at[cc].num \in byBlk}),       \* getBlockByName for each of its blocks
+        blkFinds  |-> SortedCells({cc \in Occ(K) : at[cc].num \in byBlk /\ ~at[cc].ed}),       \* getBlockByName for each of its blocks
         staleNames |-> Cardinality(byName \ Live(K)),
         staleBlks  |-> Cardinality(byBlk \ Live(K)),
         count  |-> Count(K),
+        zoneCounts |-> [z \in 1..2 |-> Cardinality(Occ(K) \cap zcells[z])],               \* len(getAssemblies(zones=[name]))
+        totOk  |-> \A cc \in Occ(K) : ~at[cc].ed,                                   \* core totals comparable (no edited copy)
+        inputsIntact |-> TRUE,          \* array objects the caller assigned as parameter values are never modified in place
         parOk  |-> ParOk(K),                                                     \* parameter totals comparable (nothing mixed)
         pool   |-> 0,                                                            \* assemblies these operations sent to the spent fuel pool
         volOk  |-> ~\E cc \in Occ(K) : Line(cc) = 3 /\ at[cc].k = 0,
@@ -545,6 +597,6 @@ Obs == [d   |-> ObsT,
         full |-> FullCoef(Cur, sym)]
 \* identity of a node of the emitted graph: everything that decides the future, without the absolute names
 Vars == [pat |-> pat, sym |-> sym,
-         cells |-> LET cs == SortedCells(Occ(Cur)) IN [x \in 1..Len(cs) |-> <<cs[x], at[cs[x]].o, at[cs[x]].k, at[cs[x]].ps, at[cs[x]].fx>>],
-         conv |-> conv, ec |-> ecAdded, gflag |-> gflag]
+         cells |-> LET cs == SortedCells(Occ(Cur)) IN [x \in 1..Len(cs) |-> <<cs[x], at[cs[x]].o, at[cs[x]].k, at[cs[x]].ps, at[cs[x]].fx, at[cs[x]].ed>>],
+         conv |-> conv, ec |-> ecAdded, gflag |-> gflag, z1 |-> SortedCells(zcells[1]), z2 |-> SortedCells(zcells[2])]
 =============================================================================================================
